@@ -58,8 +58,8 @@ def per_property(P, M, S):
         out.append("```\n" + doc + "\n```\n")
         c = claimed[pid]
         out.append(f"*Level claimed:* `{c['level_claimed']['category']}` — {c['level_claimed']['text']}\n")
-        own = sorted(k for k, v in M.items() if v["kind"] != "benign" and pid in v["caught"] and v["expected"] == [pid])
-        other = sorted(k for k, v in M.items() if v["kind"] != "benign" and pid in v["caught"] and v["expected"] != [pid])
+        own = sorted(k for k, v in M.items() if v["kind"] not in ("benign", "limit") and pid in v["caught"] and v["expected"] == [pid])
+        other = sorted(k for k, v in M.items() if v["kind"] not in ("benign", "limit") and pid in v["caught"] and v["expected"] != [pid])
         short = lambda k: k.split("/")[1].replace(".patch", "") if k.startswith(("seeded", "mutants")) else k      # noqa: E731
         out.append(f"*Catches* (changes made to break {pid}): {', '.join(short(k) for k in own) or '—'}.  "
                    f"*Also reports* (changes made to break a sibling property): {', '.join(short(k) for k in other) or '—'}.\n")
@@ -70,15 +70,18 @@ def validation(P, M, S):
     out = [part("07_validation_head.md")]
     benign = sorted(k for k, v in M.items() if v["kind"] == "benign")
     silent = [k for k in benign if not M[k]["caught"]]
-    out.append(f"**Behaviour-preserving refactorings:** {len(benign)} stored patches (benign/rf1 .. rf34, four per sub-agent), "
-               f"{len(silent)} silent for every claimed property on the final machinery.\n")
+    limits = sorted(k for k, v in M.items() if v["kind"] == "limit")
+    out.append(f"**Behaviour-preserving refactorings:** {len(benign)} stored patches under `benign/` (rf1 .. rf46, four per sub-agent, minus the "
+               f"documented limitations), {len(silent)} silent for every claimed property on the final machinery; {len(limits)} more under "
+               "`benign-limits/` (see its README and section 3) are reported, by: " +
+               "; ".join(f"{k.split('/')[1].replace('.patch', '')}: {', '.join(M[k]['caught']) or 'nothing'}" for k in limits) + ".\n")
     out.append("**Breaking changes** (each confirmed by me: applies to HEAD, the 55 tests still pass, its demonstration test fails with the change and "
                "passes without it):\n")
     out.append("| change | made to break | what was changed | reported by |")
     out.append("|---|---|---|---|")
     for k in sorted(M):
         v = M[k]
-        if v["kind"] == "benign":
+        if v["kind"] in ("benign", "limit"):
             continue
         name = k.split("/")[1].replace(".patch", "")
         meta = S.get(name, {})
@@ -88,8 +91,8 @@ def validation(P, M, S):
         exp = ", ".join(v["expected"]) or "(C09, not claimed)"
         out.append(f"| {name} | {exp} | {what} | {', '.join(v['caught']) or 'nothing (C09 is not claimed)'} |")
     out.append("")
-    n_s = len([k for k, v in M.items() if v["kind"] != "benign" and v["expected"]])
-    n_own = len([k for k, v in M.items() if v["kind"] != "benign" and v["expected"] and v["expected"][0] in v["caught"]])
+    n_s = len([k for k, v in M.items() if v["kind"] not in ("benign", "limit") and v["expected"]])
+    n_own = len([k for k, v in M.items() if v["kind"] not in ("benign", "limit") and v["expected"] and v["expected"][0] in v["caught"]])
     out.append(f"Of the {n_s} breaking changes aimed at a claimed property, {n_own} are reported by the check of that very property "
                "(the remaining ones, if any, by a sibling); the changes aimed at C09 are reported only where they also break a claimed clause.\n")
     return "\n".join(out) + "\n"
